@@ -690,7 +690,8 @@ fn transform_call_aggregate(location: TokenLocation,
                 "bool_and" => Aggregate::BoolAnd(expression),
                 "bool_or" => Aggregate::BoolOr(expression),
                 "array_agg" => Aggregate::CollectArray(expression),
-                _ => { panic!("should not happen") }
+                // Aggregates that require a second argument (string_agg)
+                _ => { return Err(ConvertParserTreeErrorType::ExpectedArgument.with_location(location)); }
             };
 
             Ok((Some(format!("{}{}", name_lowercase, index)), aggregate, None))
